@@ -63,6 +63,17 @@ class Operator:
 
         return f"({self.name} {' '.join(signature_str_items)})"
 
+    @property
+    def quantification_objects(self) -> Optional[Dict[str, PDDLObject]]:
+        """The objects that quantified conditions and effects range over.
+
+        A constant of the domain is an object of every problem, so a quantifier ranges over the constants as well.
+        """
+        if self.problem_objects is None:
+            return None
+
+        return {**self.domain.constants, **self.problem_objects}
+
     def __str__(self):
         called_objects = " ".join(self.grounded_call_objects)
         return f"({self.name} {called_objects})"
@@ -114,7 +125,7 @@ class Operator:
             )
             return
 
-        for pddl_object in self.problem_objects.values():
+        for pddl_object in self.quantification_objects.values():
             self.logger.debug(
                 f"Trying to apply the action's universal effects on the object: {pddl_object.name}"
             )
@@ -156,7 +167,7 @@ class Operator:
                         extended_parameter_map
                     )
                     if grounded_conditional_effect.antecedents_hold(
-                        previous_state, problem_objects=self.problem_objects
+                        previous_state, problem_objects=self.quantification_objects
                     ):
                         self.logger.debug(
                             "The antecedents of the universal effect hold."
@@ -174,7 +185,9 @@ class Operator:
         if not self.grounded:
             self.ground()
 
-        return self.grounded_preconditions.is_applicable(state, self.problem_objects)
+        return self.grounded_preconditions.is_applicable(
+            state, self.quantification_objects
+        )
 
     def apply(
         self,
@@ -209,7 +222,7 @@ class Operator:
         for effect in self.grounded_effects:
             self.logger.debug(f"Applying the effect: {str(effect)}")
             if not skip_validation and not effect.antecedents_hold(
-                previous_state, problem_objects=self.problem_objects
+                previous_state, problem_objects=self.quantification_objects
             ):
                 self.logger.debug(
                     "The antecedents for the effect do not hold so skipping the effect."
